@@ -65,7 +65,6 @@ func vfC31AllFields(pfx string, got, want *Config) {
 //vf:unwind 80
 //vf:bound inputs each Config field in turn (45 today) symbolic in both sources: strings empty or 1 symbolic byte, ints/durations all 64-bit values, maps nil/empty/1-2 entries with a shared key, lists of 0-2 elements
 //vf:outside the five *Raw helper strings (parsed elsewhere, not merged); two different fields non-default at once (cross-field interference is visible as a non-zero result in another field)
-//vf:nonative
 func VfC31_Fields() {
 	k := vfChoice("field", vfC31NFields)
 	a, b := &Config{}, &Config{}
@@ -92,7 +91,6 @@ func VfC31_Fields() {
 //vf:unwind 80
 //vf:paths quick=400000 thorough=4000000
 //vf:bound inputs each field in turn symbolic in three sources
-//vf:nonative
 func VfC31_Assoc() {
 	k := vfChoice("field", vfC31NFields)
 	a, b, c := &Config{}, &Config{}, &Config{}
